@@ -305,8 +305,10 @@ static int upipe_qsink_set_flow_def(struct upipe *upipe, struct uref *uref)
  */
 static int upipe_qsink_flush(struct upipe *upipe)
 {
+    struct upipe_qsink *upipe_qsink = upipe_qsink_from_upipe(upipe);
+    /* the flow definition may have been among the held urefs */
+    upipe_qsink->flow_def_sent = false;
     if (upipe_qsink_flush_input(upipe)) {
-        struct upipe_qsink *upipe_qsink = upipe_qsink_from_upipe(upipe);
         upump_stop(upipe_qsink->upump);
         /* All packets have been output, release again the pipe that has been
          * used in @ref upipe_qsink_input. */
